@@ -250,31 +250,7 @@ func (c *Ctx) StaticCalleesInPkg(fn *ssa.Function, cut map[*ssa.Function]bool) [
 // InternalImpl resolves an invoke through an unexported in-scope interface (an internal seam, not a contract of the
 // library) that has exactly one implementing type in scope to that type's method; nil otherwise.
 func (c *Ctx) InternalImpl(com *ssa.CallCommon) *ssa.Function {
-	if !com.IsInvoke() {
-		return nil
-	}
-	n := NamedOf(com.Value.Type())
-	if n == nil || n.Obj().Exported() || n.Obj().Pkg() == nil || !InScopePath(n.Obj().Pkg().Path()) {
-		return nil
-	}
-	iface, ok := n.Underlying().(*types.Interface)
-	if !ok {
-		return nil
-	}
-	impls := c.Implementors(iface)
-	if len(impls) != 1 {
-		return nil
-	}
-	if fn := c.Prog.LookupMethod(types.NewPointer(impls[0]), com.Method.Pkg(), com.Method.Name()); fn != nil && fn.Blocks != nil {
-		if fn.Synthetic != "" {
-			// promoted / wrapper: the declared method
-			if m := c.DeclaredMethod(impls[0], com.Method.Name()); m != nil {
-				return m
-			}
-		}
-		return fn
-	}
-	return nil
+	return Seam(com)
 }
 
 // ResolvedCallee: the static callee, or the unique implementation behind an internal seam.
